@@ -43,6 +43,15 @@ Theorem std_actions_keep_order_partial :
 Proof. intros k args Hf. exact (std_action_main k args Hf). Qed.
 Print Assumptions std_actions_keep_order_partial.
 
+(* The two combined, with an executable hypothesis: for any assignment of action-body kinds to
+   productions and any derivation tree in which every node's argument list fits its kind, the value
+   the generated actions build holds exactly the content tokens of the input, in input order. *)
+Theorem ast_tokens_in_order_partial :
+  forall kinds t, well_kinded kinds t = true ->
+  match build (fun p => std_action (kinds p)) t with Some a => lits a | None => [] end = content t.
+Proof. intros kinds t Hwk. exact (build_std_content_main kinds t Hwk). Qed.
+Print Assumptions ast_tokens_in_order_partial.
+
 (* non-vacuity: `S: 'k' A? B*;  A: num;  B: num | '-';` shaped tree, keyword without content *)
 Example c10_ast_nonvacuous :
   let act p := std_action (match p with
@@ -52,5 +61,9 @@ Example c10_ast_nonvacuous :
   let t := DNode 0 [DLeaf false 9; DNode 1 [DLeaf true 1];
                     DNode 3 [DNode 3 [DNode 4 []; DNode 5 [DLeaf true 2]]; DNode 6 [DLeaf false 8]]] in
   build act t = Some (AStruct [ASome (ALit 1); AVec [AVariant 0 (Some (ALit 2)); AVariant 1 None]])
-  /\ content t = [1; 2].
-Proof. vm_compute. split; reflexivity. Qed.
+  /\ content t = [1; 2]
+  /\ well_kinded (fun p => match p with
+                           | 0 => KStruct | 1 => KSomeOf (KRef false) | 2 => KNone
+                           | 3 => KVecPush false | 4 => KVecEmpty | 5 => KVariantRef 0 false
+                           | _ => KPlain 1 end) t = true.
+Proof. vm_compute. repeat split; reflexivity. Qed.
